@@ -54,7 +54,47 @@ QueryND(segs, NLs, root, reg) ==
     IF segs = <<>> THEN NLs
     ELSE QueryND(Tail(segs), UNION {SegND(Head(segs), nl, root, reg) : nl \in NLs}, root, reg)
 
+(* ---- the same sets through the visit orders of CONTAINERS only --------------------------- *)
+\* A selector applied to a primitive value selects nothing, so when a primitive is visited is invisible in every result: the set of
+\* permitted results is already determined by the orders in which the containers may be visited.  (T8e: the two formulations agree,
+\* checked by TLC on the witnesses and small trees.)  The container formulation is what makes WIDE documents affordable: the
+\* primitives, each free to go almost anywhere, multiply the linear extensions without adding a single result.
+IsContNode(x) == x.v.k \in {"arr", "obj"}
+\* predecessors among containers: the parent, and every container element with a smaller index of the same array
+PredsC(x, all, base) ==
+    IF x.loc = base THEN {}
+    ELSE LET parent == SubSeq(x.loc, 1, Len(x.loc) - 1)
+             key    == x.loc[Len(x.loc)]
+         IN  {parent} \cup (IF DOMAIN key = {"i"}
+                            THEN {y.loc : y \in {z \in all : /\ Len(z.loc) = Len(x.loc)
+                                                              /\ SubSeq(z.loc, 1, Len(z.loc) - 1) = parent
+                                                              /\ DOMAIN z.loc[Len(z.loc)] = {"i"}
+                                                              /\ z.loc[Len(z.loc)].i < key.i}}
+                            ELSE {})
+RECURSIVE LEC(_, _, _, _)
+LEC(placed, remaining, all, base) ==
+    IF remaining = {} THEN {placed}
+    ELSE LET done  == {placed[k].loc : k \in 1..Len(placed)}
+             ready == {x \in remaining : PredsC(x, all, base) \subseteq done}
+         IN  UNION {LEC(Append(placed, x), remaining \ {x}, all, base) : x \in ready}
+LinExtsC(nd) ==
+    IF ~IsContNode(nd) THEN {<<nd>>}
+    ELSE LET ds  == DescOrSelf(nd)
+             all == {ds[k] : k \in 1..Len(ds)} \cap {x \in {ds[k] : k \in 1..Len(ds)} : IsContNode(x)}
+         IN  LEC(<<>>, all, all, nd.loc)
+SegNDC(seg, nl, root, reg) ==
+    ConcatSets([k \in 1..Len(nl) |->
+        IF seg.desc
+        THEN UNION {ConcatSets([d \in 1..Len(order) |-> NodeND(seg.sels, order[d], root, reg)]) : order \in LinExtsC(nl[k])}
+        ELSE NodeND(seg.sels, nl[k], root, reg)])
+RECURSIVE QueryNDC(_, _, _, _)
+QueryNDC(segs, NLs, root, reg) ==
+    IF segs = <<>> THEN NLs
+    ELSE QueryNDC(Tail(segs), UNION {SegNDC(Head(segs), nl, root, reg) : nl \in NLs}, root, reg)
+
 LocsOf(nl) == [k \in 1..Len(nl) |-> nl[k].loc]
+AllowedResultsC(segs, doc, reg) ==
+    {LocsOf(nl) : nl \in QueryNDC(segs, {<<RootNode(doc)>>}, doc, reg)}
 \* every nodelist (as locations) RFC 9535 permits for the query on the document
 AllowedResults(segs, doc, reg) ==
     {LocsOf(nl) : nl \in QueryND(segs, {<<RootNode(doc)>>}, doc, reg)}
